@@ -821,12 +821,21 @@ def nls_sensitivity(case, sp, fn):
     return su, sx
 
 
-def nls_tol(sens, um, xm, eps):
-    """per-time-step allowed deviation between implementation and model on the nonlinear streams"""
+def nls_tol(sens, um, xm, eps, sp=None, unom=None):
+    """allowed deviation between implementation and model on the nonlinear streams: measured sensitivity of the
+    implementation's own result (per time step) plus, when the nominal of the last solve is known, the error scales of
+    the linear-quadratic solve of the problem linearised there (componentwise, as for linear systems)"""
     su, sx = sens
     tu = 1e4 * eps * (su + np.abs(um).max(axis=1)) + 1e4 * eps * eps * (np.abs(um).max() + np.abs(xm).max())
     tx = 1e4 * eps * (sx + np.abs(xm).max(axis=1)) + 1e4 * eps * eps * (np.abs(um).max() + np.abs(xm).max())
-    return tu[:, None], tx[:, None]
+    tu, tx = np.repeat(tu[:, None], um.shape[1], axis=1), np.repeat(tx[:, None], xm.shape[1], axis=1)
+    if sp is not None and unom is not None:
+        try:
+            ru, rx = LinView(sp, unom).ref_tols(unom, eps)
+            tu, tx = tu + C_TOL * eps * ru, tx + C_TOL * eps * rx
+        except Exception:
+            pass
+    return tu, tx
 
 
 def run_mpc_nls(ctx: Ctx, case, lines, metas):
@@ -895,8 +904,9 @@ def run_mpc_nls(ctx: Ctx, case, lines, metas):
             sens = nls_sensitivity(case, spc, one_mpc)
             lines.append(U.mpc_line(case, U.sin_nums(case, spc, None if uin is None else uin[0]), 0, uin is not None,
                                     steps_eff, case["patience"], pc0, case["decreasing"], case["tol"]))
+            fin = rec.calls[-1][0] if rec.calls else None
             metas.append((case, call, len(rec.calls) - 1, int(stepper.patience_count), x[0].double().numpy(), u[0].double().numpy(),
-                          float(cost[0]), sens, costs))
+                          float(cost[0]), sens, (costs, spc, None if fin is None else fin[0].double().numpy())))
             ctx.count("mpc.nls.call")
             ctx.count(f"mpc.nls.iterations.{len(rec.calls) - 1}")
             if call + 1 < case["calls"]:
@@ -924,6 +934,12 @@ class LinView:
         self.c = np.stack([U.sin_f(sp, xb[t], ub[t], t) - self.A[t] @ xb[t] - self.B[t] @ ub[t] for t in range(T)])
         self.Q, self.p, self.x0, self.T = sp["Q"], sp["p"], sp["x0"], T
 
+    def ref_tols(self, ub, eps):
+        """error scales of the linear-quadratic solve of the linearised problem (same model as for linear systems)"""
+        r = U.Ref(self.A, self.B, self.c, self.Q, self.p, self.x0)
+        tol_u, tol_x, _ = r.tols(ub, eps)
+        return tol_u, tol_x
+
 
 def compare_mpc_model(ctx: Ctx, reps, metas):
     eps = common.EPS["float64"]
@@ -934,12 +950,14 @@ def compare_mpc_model(ctx: Ctx, reps, metas):
             sens = extra
             if sens is None:
                 continue
-            tu, tx = nls_tol(sens, um, xm, eps)
             sp = U.build_sin_problem(case)
+            rs0 = np.random.RandomState((case["data_seed"] + 5) % (2 ** 32))
+            ub0 = rs0.standard_normal((1, T, nc))[0] * 0.5
+            tu, tx = nls_tol(sens, um, xm, eps, sp, ub0)
             _, Ja = 0.0, sum(0.5 * np.abs(np.concatenate([xm[t], um[t]])) @ np.abs(sp["Q"][t]) @ np.abs(np.concatenate([xm[t], um[t]]))
                              + np.abs(sp["p"][t]) @ np.abs(np.concatenate([xm[t], um[t]])) for t in range(T))
             # cost: first-order propagation of the allowed (x,u) deviations through the stage-cost gradient
-            dts = [np.concatenate([np.broadcast_to(tx[t], ns), np.broadcast_to(tu[t], nc)]) for t in range(T)]
+            dts = [np.concatenate([tx[t], tu[t]]) for t in range(T)]
             gsum = sum(float(np.abs(sp["Q"][t] @ np.concatenate([xm[t], um[t]]) + sp["p"][t]) @ dts[t] + 0.5 * dts[t] @ np.abs(sp["Q"][t]) @ dts[t])
                        for t in range(T))
             tc = 1e4 * eps * Ja + gsum
@@ -974,7 +992,7 @@ def compare_mpc_model(ctx: Ctx, reps, metas):
         if sens is None:
             continue
         # discrete outputs: only decisive when the recorded costs are not within rounding of a threshold
-        costs = aux
+        costs, spc_, unom_ = aux
         amp = 1 + float(sens[0].max()) + float(sens[1].max())
         fragile = any(abs(costs[i] - costs[j]) <= 1e-9 * amp * (abs(costs[i]) + 1) for i in range(len(costs)) for j in range(i))
         fragile |= any(abs(c - case["tol"]) <= 1e-9 * (1 + abs(c)) for c in costs)
@@ -987,7 +1005,7 @@ def compare_mpc_model(ctx: Ctx, reps, metas):
                 continue
             ctx.disagree("mpc", case, f"call {call + 1}: implementation ran {niter} iterations (patience_count {pc}), model {nm} ({pcm}); costs {costs}")
             continue
-        tu, tx = nls_tol(sens, um, xm, eps)
+        tu, tx = nls_tol(sens, um, xm, eps, spc_, unom_)
         eu, ex = (np.abs(ui - um) / (tu + 1e-300)).max(), (np.abs(xi - xm) / (tx + 1e-300)).max()
         stat("mpc.nls.u", eu); stat("mpc.nls.x", ex)
         if eu > 1 or ex > 1:
